@@ -1392,7 +1392,7 @@ func (t *typeParser) parseParamNodes() (params []typeParserParamNode, ok bool) {
 
 	t.skipWhitespace()
 
-	for t.input[t.index] != ')' {
+	for t.index < len(t.input) && t.input[t.index] != ')' {
 		// look for a named param, but if no colon, then we want to backup
 		backupIndex := t.index
 
@@ -1407,7 +1407,7 @@ func (t *typeParser) parseParamNodes() (params []typeParserParamNode, ok bool) {
 
 		t.skipWhitespace()
 
-		if t.input[t.index] == ':' {
+		if t.index < len(t.input) && t.input[t.index] == ':' {
 			// there is a name for this parameter
 
 			// consume the ':'
@@ -1440,12 +1440,17 @@ func (t *typeParser) parseParamNodes() (params []typeParserParamNode, ok bool) {
 
 		t.skipWhitespace()
 
-		if t.input[t.index] == ',' {
+		if t.index < len(t.input) && t.input[t.index] == ',' {
 			// consume the comma
 			t.index++
 
 			t.skipWhitespace()
 		}
+	}
+
+	if t.index >= len(t.input) {
+		// the parameter list is not closed
+		return nil, false
 	}
 
 	// consume the ')'
